@@ -2,6 +2,7 @@ import Clover.Props.C13
 import Clover.Props.C14
 import Clover.Spec.Render
 import Clover.Proofs.RefineScan
+import Clover.Proofs.InvStep
 /-! # C06 — documents, index entries and counts stay consistent (representation invariant) -/
 namespace CV.Props.C06
 open CV
@@ -37,5 +38,48 @@ theorem frame_index (c c' f f' rest : Bytes) (hc : Keys.Clean c) (hc' : Keys.Cle
     (hf : Keys.Clean f) (hf' : Keys.Clean f') :
     Keys.isPrefix (Keys.idxPrefix c' f') (Keys.idxKey c f rest) = true ↔ c = c' ∧ f = f' :=
   C14.index_prefix_selects_own_entries c c' f f' rest hc hc' hf hf'
+
+end CV.Props.C06
+
+namespace CV.Props.C06
+open CV
+
+variable (likeFn : LikeFn) (fnFam : FnFam)
+
+/-- **The invariant is preserved by every public operation** in the supported domain (`OpOK`: the
+    names that enter the key space are free of `';'`) — every operation kind, every argument, every
+    handle state, and every fault schedule: whether the call succeeds, fails on its input, or is
+    hit by a store fault at any of its store calls, the store it leaves satisfies `Inv`. -/
+theorem inv_step (op : Op) (hop : OpOK op) (σ : DBState) (φ : Faults) (h : Inv σ.kv) :
+    Inv (op.run likeFn fnFam σ φ).state.kv := CV.inv_step likeFn fnFam op hop σ φ h
+
+/-- **Every reachable state satisfies the invariant**: after any finite history of operations, each
+    under its own arbitrary fault schedule, starting from the empty database. -/
+theorem inv_reachable (h : List (Op × Faults)) (hok : ∀ p ∈ h, OpOK p.1) :
+    Inv (runHistory likeFn fnFam h {}).kv := CV.inv_from_empty likeFn fnFam h hok
+
+/-- What the invariant says about index entries: in a store representing a well-formed state, a key
+    under the prefix of the index on `(c, f)` is bound iff `f` is catalogued and the key is the entry of
+    a live document under its current value of `f` — one entry per document, nothing else (no
+    residue of dropped indexes, deleted documents or old values). -/
+theorem index_entries_exact (s : Spec.State) (σ : KVS) (hw : WF s) (hr : Rep s σ) (c : Bytes) (coll : Spec.Coll)
+    (hl : Spec.lookup c s = some coll) (f : Bytes) (hf : Keys.Clean f) (k : Bytes) (v : SVal) (hk : KeyField c k f) :
+    kvGet σ k = some v ↔
+      f ∈ coll.indexes ∧ ∃ id d, Spec.lookup id coll.docs = some d ∧ k = CV.idxKey c f (d.get f) id ∧ v = .unit := by
+  obtain ⟨hc, hcw⟩ := wf_lookup_clean s hw c coll hl
+  have hd := rep_data s σ hw hr c coll hl
+  obtain ⟨rest, hkk⟩ := hk
+  rw [hd k v (Or.inr ⟨f, rest, hkk⟩)]
+  exact holdsD_field c hc coll.indexes hcw.fieldsClean coll.docs f hf k v ⟨rest, hkk⟩
+
+/-- No key is owned by a collection that does not exist: after `DropCollection` (whose resulting
+    store represents the state without the collection, `C13.dropCollection_exact`) nothing of it is left,
+    and a collection created later under the same name starts empty. -/
+theorem no_residue_of_missing_collection (s : Spec.State) (σ : KVS) (hw : WF s) (hr : Rep s σ) (c : Bytes)
+    (hc : Keys.Clean c) (hl : Spec.lookup c s = none) (k : Bytes) (ho : Owns c k) : kvGet σ k = none :=
+  rep_unowned s σ hw hr c hc hl k ho
+
+/-- non-vacuity: `OpOK` holds for ordinary operations, e.g. creating the collection `"a.b"` -/
+example : OpOK (.createCollection [0x61, 0x2E, 0x62]) := by simp [OpOK, Keys.Clean, Keys.semi]
 
 end CV.Props.C06
